@@ -2,6 +2,11 @@
 // buffers (ASan red zones directly after the last byte), plus an independent byte-wise strict reference decoder.
 #include "inc/Decompressor.h"
 #include "hcommon.h"
+#define private public
+#define protected public
+#include "inc/Face.h"
+#undef private
+#undef protected
 
 // independent reference: LZ4 block format, sequence semantics; the block must end with a literals-only sequence
 static bool ref_decode(const std::vector<uint8_t> &in, std::vector<uint8_t> &out) {
@@ -26,6 +31,15 @@ static bool ref_decode(const std::vector<uint8_t> &in, std::vector<uint8_t> &out
     }
 }
 
+// Face::Table over given bytes: one table ('Silf') served from an exact-size heap copy
+struct TSrc { const std::vector<uint8_t> *t; int gets, rels; };
+static const void *t_get(const void *h, unsigned int name, size_t *len) {
+    TSrc *s = (TSrc *)h;
+    if (name != graphite2::TtfUtil::Tag::Silf) return 0;
+    s->gets++; *len = s->t->size(); return exact_copy(*s->t);
+}
+static void t_rel(const void *h, const void *p) { ((TSrc *)h)->rels++; free(const_cast<void *>(p)); }
+
 int main(int argc, char **argv) {
     std::string line;
     while (std::getline(std::cin, line)) {
@@ -34,6 +48,24 @@ int main(int argc, char **argv) {
         if (f.size() < 3) { printf("%s BAD\n", f.empty() ? "?" : f[0].c_str()); continue; }
         const std::string &id = f[0];
         std::vector<uint8_t> in;
+        if (f[1] == "table" && f.size() >= 4) {
+            // <id> table <first compressed version> <hex bytes>: what Face::Table makes of these bytes
+            in = unhex(f[3]);
+            TSrc s = { &in, 0, 0 };
+            gr_face_ops ops = { sizeof(gr_face_ops), t_get, t_rel };
+            std::string out;
+            {
+                graphite2::Face face(&s, ops);
+                graphite2::Face::Table tb(face, graphite2::TtfUtil::Tag::Silf, (graphite2::uint32)strtoul(f[2].c_str(), 0, 10));
+                const graphite2::byte *p = tb;
+                if (!p) out = "T R";
+                else if (tb.size() == in.size() && memcmp(p, in.data(), in.size()) == 0) out = "T P";          // still the bytes it was given
+                else out = "T K " + std::to_string(tb.size()) + " " + tohex(p, tb.size());
+            }
+            if (s.gets != s.rels) out += " LEDGER " + std::to_string(s.gets) + "/" + std::to_string(s.rels);
+            printf("%s %s\n", id.c_str(), out.c_str());
+            fflush(stdout); case_end(); continue;
+        }
         size_t osz = strtoul(f[1].c_str(), 0, 10);
         if (f[2] == "wrap") {
             // synthetic giant block exercising the 32-bit wrap of the match length (see DESIGN.md section 7):
